@@ -698,6 +698,12 @@ func main() {
 				continue
 			}
 			for _, decl := range f.Decls {
+				// an init() can rewrite any package-level table before the first generation: each
+				// one is listed (the tie accounts for them by package)
+				if fd, ok := decl.(*ast.FuncDecl); ok && fd.Recv == nil && fd.Name.Name == "init" {
+					vrows = append(vrows, vrow{short, file, "init", "func init()"})
+					continue
+				}
 				gd, ok := decl.(*ast.GenDecl)
 				if !ok || gd.Tok.String() != "var" {
 					continue
